@@ -189,6 +189,10 @@ func (cma *CmaEsChol) Init(dim, tasks int) int {
 	// Allocate memory for function data.
 	cma.xs = mat.NewDense(cma.pop, dim, nil)
 	cma.fs = resize(cma.fs, cma.pop)
+	// No sample has been evaluated yet.
+	for i := range cma.fs {
+		cma.fs[i] = math.NaN()
+	}
 
 	// Allocate and initialize adaptive parameters.
 	cma.invSigma = 1 / cma.InitStepSize
